@@ -3,6 +3,7 @@ import copy
 import json
 import os
 import pickle
+import sqlite3
 import sys
 import tempfile
 
@@ -64,10 +65,39 @@ def obs_rec(d):
 STAGE = [""]
 
 
+def run_gffblocks(case, tmp):
+    """one GFF text loaded with each lines_per_block; per load: all records + window queries"""
+    from cogent3.core import annotation_db as adb
+
+    p = os.path.join(tmp, "blocks.gff")
+    with open(p, "w") as f:
+        f.write(case["text"])
+    out = []
+    for lpb in case["lpbs"]:
+        STAGE[0] = f"load:lines_per_block={lpb}"
+        if lpb == 500000:
+            db = adb.load_annotations(path=p)  # the default
+        else:
+            db = adb.load_annotations(path=p, lines_per_block=lpb)
+        recs = sorted(([d["name"], d["seqid"], d["biotype"], d["strand"], d["attributes"],
+                        [[int(a), int(b)] for a, b in d["spans"].tolist()], int(d["start"]), int(d["stop"])]
+                       for d in db.get_records_matching()), key=repr)
+        qres = []
+        for qs, qe, partial in case["queries"]:
+            qres.append(sorted(([d["name"], [[int(a), int(b)] for a, b in d["spans"]]]
+                                for d in db.get_features_matching(start=qs, stop=qe, allow_partial=bool(partial))), key=repr))
+        if len(db) != len(recs):
+            raise AssertionError(f"len(db)={len(db)} but {len(recs)} records")
+        out.append([recs, qres])
+    return out
+
+
 def run_case(case, tmp):
     from cogent3.core import annotation_db as adb
 
     kind = case["kind"]
+    if kind == "gffblocks":
+        return run_gffblocks(case, tmp)
     db = adb.BasicAnnotationDb() if kind == "basic" else None
     n = 0
     for op in case["ops"]:
@@ -115,13 +145,16 @@ def run_case(case, tmp):
         STAGE[0] = "query"
         feats = sorted((obs_feat(d) for d in db.get_features_matching(**kw)), key=repr)
         rkw = dict(kw)
-        if kind != "basic" and rkw.get("on_alignment") is False:
-            # get_records_matching(on_alignment=False) on a two-table class asks the gff/gb table for a
-            # column it does not have; on_alignment is not among the query arguments C17 names
-            rkw.pop("on_alignment")
-            recs = None  # not observed
-        else:
+        try:
             recs = sorted((obs_rec(d) for d in db.get_records_matching(**rkw)), key=repr)
+        except sqlite3.OperationalError as e:
+            # get_records_matching(on_alignment=False) on a two-table class asks the gff/gb table for a
+            # column it does not have; on_alignment is not among the query arguments C17 names: tolerated
+            # as "not observed" — an answer, when one is given, is compared
+            if kind != "basic" and rkw.get("on_alignment") is False and "no such column: on_alignment" in str(e):
+                recs = None
+            else:
+                raise
         ckw = {k: v for k, v in kw.items() if k in ("seqid", "biotype", "name", "strand")}
         if kind == "basic" and "on_alignment" in kw:
             ckw["on_alignment"] = kw["on_alignment"]
